@@ -17,7 +17,7 @@ STUB_SEND = [("std::sync::mpsc::Sender::send", "crate::harness::stubs::mpsc_send
 SPECS = []
 
 
-def add(prop, name, body, *, stubs=(), keep=None, unwind=None, tier="quick", timeout=600, mem_gb=12, note="", native=True, cbmc_args=()):
+def add(prop, name, body, *, stubs=(), keep=None, unwind=None, tier="quick", timeout=600, mem_gb=12, note="", native=True, cbmc_args=(), kf_witness=None):
     st = list(STUB_FMT) + list(STUB_SEND)
     for s in stubs:
         st.extend(s)
@@ -36,6 +36,7 @@ def add(prop, name, body, *, stubs=(), keep=None, unwind=None, tier="quick", tim
             note=note,
             native=native,
             cbmc_args=list(cbmc_args),
+            kf_witness=kf_witness,
         )
     )
 
@@ -97,7 +98,8 @@ for prop, nm, b0, hi, sz, sem, k in UN:
 form("C02", "mulxu_b", "c02::mulxu($S, {mode}, 1)", ["mulxu_b"])
 form("C02", "mulxu_w", "c02::mulxu($S, {mode}, 2)", ["mulxu_w"], timeout=1800)
 form("C02", "divxu_b", "c02::divxu($S, {mode}, 1, 8)", ["divxu_b"])
-form("C02", "divxu_w_divisor8bit", "c02::divxu($S, {mode}, 2, 8)", ["divxu_w"], timeout=1800, note="bound: divisor < 256")
+form("C02", "divxu_w_divisor4bit", "c02::divxu($S, {mode}, 2, 4)", ["divxu_w"], timeout=1800, note="bound: divisor < 16 (divisor < 256 takes 26 min: thorough tier)")
+form("C02", "divxu_w_divisor8bit", "c02::divxu($S, {mode}, 2, 8)", ["divxu_w"], timeout=3000, tier="thorough", note="bound: divisor < 256")
 form("C02", "divxu_w", "c02::divxu($S, {mode}, 2, 16)", ["divxu_w"], timeout=2400, tier="thorough", note="full width; may exceed the cap (then inconclusive)")
 
 
@@ -264,8 +266,9 @@ for _f, _hs in sorted(_by_file.items()):
 add("C15", "c15_free_dispatch_ram", "c15::free_step($S, util::PC_RAM)", stubs=INSTR_STUBS, keep=[])
 add("C15", "c15_free_dispatch_dram_start", "c15::free_step($S, 0x400000)", stubs=INSTR_STUBS, keep=[])
 add("C15", "c15_free_dispatch_vector", "c15::free_step($S, 0x000000)", stubs=INSTR_STUBS, keep=[])
-add("C15", "c15_free_dispatch_dram_end", "c15::free_step($S, 0x5ffffe)", stubs=INSTR_STUBS, keep=[])
-add("C15", "c15_free_fetch", "c15::free_fetch($S)")
+add("C15", "c15_kfwitness_multiword_fetch_at_dram_end", "c15::free_step($S, 0x5ffffe)", stubs=INSTR_STUBS, keep=[], kf_witness="KF_C15_FETCH_UNWRAP")
+add("C15", "c15_free_fetch_mapped", "c15::free_fetch($S, true)")
+add("C15", "c15_kfwitness_fetch_unmapped", "c15::free_fetch($S, false)", kf_witness="KF_C15_FETCH_UNWRAP")
 add("C15", "c15_free_interrupt", "c15::free_interrupt($S)", stubs=(STUB_MEM,))
 
 STUB_RUN = [
@@ -292,5 +295,5 @@ add("C18", "c18_socket_lines", "c13::socket_lines($S)", stubs=(STUB_RUN, STUB_SO
 
 STUB_ELF = [("crate::elf::read_elf", "crate::harness::c11::ghost_read_elf")]
 for v in (0, 1):
-    add("C11", f"c11_load_skeleton_v{v}", f"c11::load_skeleton($S, {v}, false)", stubs=(STUB_ELF,), unwind=20, timeout=5400, mem_gb=24, tier="quick" if v == 0 else "thorough")
-    add("C12", f"c12_load_skeleton_v{v}", f"c11::load_skeleton($S, {v}, true)", stubs=(STUB_ELF,), unwind=20, timeout=5400, mem_gb=24)
+    add("C11", f"c11_load_skeleton_v{v}", f"c11::load_skeleton($S, {v}, false)", stubs=(STUB_ELF,), unwind=44, timeout=5400, mem_gb=24, tier="quick" if v == 0 else "thorough")
+    add("C12", f"c12_load_skeleton_v{v}", f"c11::load_skeleton($S, {v}, true)", stubs=(STUB_ELF,), unwind=44, timeout=5400, mem_gb=24)
